@@ -1,212 +1,331 @@
 import BppModel.Proto
 import BppModel.Range
 /-
-Driver for C20 (Range.h).  Registers: multi-ranges m0..m3, range sets s0..s3,
-and for each multi-range register the specification point set (unit cells of
-the universe 0..U-1) computed independently from the history.
+Driver for C20 (Range.h), generic in the coordinate type and run at `Int` (`case … int`),
+`UInt32` (`case … uint`, arithmetic modulo 2^32) and `Rat` (`case … double [scale]`).
+
+Coordinates travel as integers: a script integer `n` stands for the value `n / scale` (scale 1
+for int / uint; 1, 2 or 4 for double, so that non-integral dyadic doubles are exercised), and a
+value is printed as `value * scale`.
+
+Registers: multi-ranges m0..m3, range sets s0..s3, and for each multi-range register the
+specification point set (cells `[p/scale,(p+1)/scale[` of the universe) computed independently
+from the history, plus the implementation's previous answer (the state `filter_spec` speaks about).
 -/
 namespace Bpp.Drive.C20
 open Bpp Bpp.Proto
 
-def U : Nat := 64
+def U : Nat := 128
 
-structure St where
-  mr : Array (List Range) := Array.replicate 4 []
-  rs : Array (List Range) := Array.replicate 4 []
-  /-- specification: the set of unit cells `[p,p+1[`, as a characteristic vector -/
+/-- how script integers are read into / printed from a coordinate type
+(`static_cast<T>(long long) / scale` and `(long long)(v * scale)` in the harness) -/
+class Wire (α : Type) where
+  ofScript : Int → Nat → α
+  toScript : α → Nat → Int
+
+instance : Wire Int := ⟨fun n _ => n, fun v _ => v⟩
+instance : Wire UInt32 := ⟨fun n _ => UInt32.ofNat (n % 4294967296).toNat, fun v _ => v.toNat⟩
+instance : Wire Rat := ⟨fun n s => (n : Rat) / (s : Rat), fun v s => (v * (s : Rat)).floor⟩
+
+section
+variable {α : Type} [LE α] [LT α] [DecidableLE α] [DecidableLT α] [DecidableEq α] [OfNat α 0]
+  [Min α] [Max α] [Add α] [Sub α] [CoordIO α] [Wire α]
+
+structure St (α : Type) where
+  scale : Nat := 1
+  mr : Array (List (Range α)) := Array.replicate 4 []
+  rs : Array (List (Range α)) := Array.replicate 4 []
+  /-- specification: the set of cells, as a characteristic vector -/
   spec : Array (Array Bool) := Array.replicate 4 (Array.replicate U false)
-  /-- specification of a range set: the multiset of ranges it must hold -/
-  rsSpec : Array (List Range) := Array.replicate 4 []
+  /-- specification of a range set: the list of ranges it must hold -/
+  rsSpec : Array (List (Range α)) := Array.replicate 4 []
+  /-- the implementation's previous answer for each multi-range register -/
+  implMr : Array (List (Range α)) := Array.replicate 4 []
 
-def cellIn (r : Range) (p : Nat) : Bool := decide (r.b ≤ (p : Int)) && decide ((p : Int) < r.e)
+def cellIn (sc : Nat) (r : Range α) (p : Nat) : Bool :=
+  decide (r.b ≤ Wire.ofScript (p : Int) sc) && decide ((Wire.ofScript (p : Int) sc : α) < r.e)
 
-def showRanges (l : List Range) : String :=
-  showInts (MultiRange.getBounds l)
+def showC (sc : Nat) (l : List α) : String := showInts (l.map (fun v => Wire.toScript v sc))
 
-def parseRanges : List Int → Option (List Range)
+def showRanges (sc : Nat) (l : List (Range α)) : String := showC sc (MultiRange.getBounds l)
+
+def parseRanges (sc : Nat) : List Int → Option (List (Range α))
   | [] => some []
-  | a :: b :: rest => (parseRanges rest).map (fun l => ⟨a, b⟩ :: l)
+  | a :: b :: rest => (parseRanges sc rest).map (fun l => ⟨Wire.ofScript a sc, Wire.ofScript b sc⟩ :: l)
   | _ => none
 
 /-- The executable form of the invariant the theorems are about (`MultiRange.Inv`). -/
-def invOk : List Range → Bool
+def invOk : List (Range α) → Bool
   | [] => true
-  | [x] => decide (x.b < x.e)
-  | x :: y :: rest => decide (x.b < x.e) && decide (x.e ≤ y.b) && invOk (y :: rest)
+  | [x] => decide (0 ≤ x.b) && decide (x.b < x.e)
+  | x :: y :: rest => decide (0 ≤ x.b) && decide (x.b < x.e) && decide (x.e ≤ y.b) && invOk (y :: rest)
 
-def denotes (l : List Range) (spec : Array Bool) : Bool :=
-  (List.range U).all (fun p => (l.any (fun r => cellIn r p)) == spec[p]!)
+def denotes (sc : Nat) (l : List (Range α)) (spec : Array Bool) : Bool :=
+  (List.range U).all (fun p => (l.any (fun r => cellIn sc r p)) == spec[p]!)
 
-def specLen (spec : Array Bool) : Int := ((spec.toList.filter id).length : Nat)
+def specLen (spec : Array Bool) : Nat := (spec.toList.filter id).length
 
-/-- verdict of the multi-range predicate on the implementation's answer -/
-def mrVerdict (impl : Option (List String)) (spec : Array Bool) : String :=
+/-- `getBounds` is ascending (theorem `bounds_sorted`) -/
+def ascending : List α → Bool
+  | [] => true
+  | [_] => true
+  | a :: b :: rest => decide (a ≤ b) && ascending (b :: rest)
+
+/-- the full observation of a collection:
+`<getRange(i).begin end>* ; totalLength ; size isEmpty ; <getBounds / getSet>* ; toString` -/
+def showColl (sc : Nat) (l : List (Range α)) : String :=
+  showRanges sc l ++ " ; " ++ toString (RangeCollection.totalLength l) ++ " ; " ++
+    toString (RangeCollection.size l) ++ " " ++ showBool (RangeCollection.isEmpty l) ++ " ; " ++
+    showRanges sc l ++ " ; " ++ RangeCollection.toString l
+
+structure Obs (α : Type) where
+  l : List (Range α)
+  len : Int
+  size : Int
+  empty : String
+  bounds : List α
+  str : List String
+
+def parseObs (sc : Nat) (t : List String) : Option (Obs α) :=
+  match splitTok ";" t with
+  | bs :: [len] :: [size, empty] :: gb :: rest =>
+    match ints? bs, int? len, int? size, ints? gb with
+    | some bs, some len, some size, some gb =>
+      match parseRanges (α := α) sc bs with
+      | some l => some { l := l, len := len, size := size, empty := empty,
+                         bounds := gb.map (fun v => Wire.ofScript v sc),
+                         str := (rest.intersperse [";"]).flatten }
+      | none => none
+    | _, _, _, _ => none
+  | _ => none
+
+/-- observers that must agree with each other on the implementation's own answer:
+`size`, `isEmpty`, `getBounds` / `getSet`, `toString` against `getRange` (theorems
+`collection_observers`, `bounds_sorted`; `toString` by the model's function) -/
+def obsVerdict (o : Obs α) (isMr : Bool) : Option String :=
+  if o.size != (o.l.length : Nat) then some "FAIL:size"
+  else if o.empty != showBool (o.l.length == 0) then some "FAIL:isEmpty"
+  else if o.bounds != MultiRange.getBounds o.l then some "FAIL:getBounds"
+  else if isMr && !ascending o.bounds then some "FAIL:bounds_sorted"
+  else if " ".intercalate o.str != RangeCollection.toString o.l then some "FAIL:toString"
+  else none
+
+/-- executable form of the component semantics `addK` (theorem `mr_refines`): the stored ranges
+that do not overlap `r` stay; the others are replaced by the hull of their union with `r`
+(computed with min / max, independently of the order in which the code expands and erases) -/
+def specAdd (prev : List (Range α)) (r : Range α) : List (Range α) :=
+  let ov := fun (x : Range α) => decide (r.b < x.e) && decide (x.b < r.e)
+  let h := (prev.filter ov).foldl (fun (h : Range α) x => ⟨min h.b x.b, max h.e x.e⟩) r
+  let rest := prev.filter (fun x => !ov x)
+  if h.b < h.e then rest.filter (fun x => decide (x.b < h.b)) ++ [h] ++ rest.filter (fun x => !decide (x.b < h.b))
+  else rest
+
+/-- executable form of `restrictK`: the non-empty intersections -/
+def specRestrict (prev : List (Range α)) (r : Range α) : List (Range α) :=
+  prev.filterMap (fun x =>
+    let lo := max x.b r.b; let hi := min x.e r.e
+    if lo < hi then some ⟨lo, hi⟩ else none)
+
+/-- verdict of the multi-range predicates on the implementation's answer; `expect` is the
+component semantics applied to the implementation's own previous answer -/
+def mrVerdict (sc : Nat) (impl : Option (List String)) (spec : Array Bool)
+    (filt : Option (List (Range α) × Range α)) (expect : Option (List (Range α)) := none) : String :=
   match impl with
   | none => "-"
   | some t =>
-    match splitTok ";" t with
-    | [bs, [len]] =>
-      match ints? bs, int? len with
-      | some bs, some len =>
-        match parseRanges bs with
-        | some l =>
-          if !invOk l then "FAIL:mr_inv"
-          else if !denotes l spec then "FAIL:mr_denotes"
-          else if len != specLen spec then "FAIL:mr_total_length"
+    match parseObs (α := α) sc t with
+    | some o =>
+      if !invOk o.l then "FAIL:mr_inv"
+      else match filt with
+        | some (prev, r) =>
+          if o.l != prev.filter (fun x => decide (r.b ≤ x.b) && decide (x.e ≤ r.e)) then "FAIL:filter_spec"
+          else if !denotes sc o.l spec then "FAIL:mr_denotes"
           else "ok"
-        | none => "FAIL:parse"
-      | _, _ => "FAIL:parse"
-    | _ => "FAIL:parse"
+        | none =>
+          if !denotes sc o.l spec then "FAIL:mr_denotes"
+          else if sc == 1 && o.len != (specLen spec : Nat) then "FAIL:mr_total_length"
+          else if (match expect with | some e => o.l != e | none => false) then "FAIL:mr_refines"
+          else match obsVerdict o true with
+            | some f => f
+            | none => "ok"
+    | none => "FAIL:parse"
 
-def rsVerdict (impl : Option (List String)) (want : List Range) : String :=
+def rsVerdict (sc : Nat) (impl : Option (List String)) (want : List (Range α)) : String :=
   match impl with
   | none => "-"
   | some t =>
-    match splitTok ";" t with
-    | [bs, [len]] =>
-      match ints? bs, int? len with
-      | some bs, some len =>
-        match parseRanges bs with
-        | some l =>
-          if l != want then "FAIL:rangeset_keeps"
-          else if len != RangeSet.totalLength want then "FAIL:rs_total_length"
-          else "ok"
-        | none => "FAIL:parse"
-      | _, _ => "FAIL:parse"
-    | _ => "FAIL:parse"
+    match parseObs (α := α) sc t with
+    | some o =>
+      if o.l != want then "FAIL:rangeset_keeps"
+      else if o.len != (RangeSet.totalLength want : Nat) then "FAIL:rs_total_length"
+      else match obsVerdict o false with
+        | some f => f
+        | none => "ok"
+    | none => "FAIL:parse"
 
-def showMr (l : List Range) : String :=
-  showRanges l ++ " ; " ++ toString (MultiRange.totalLength l)
-def showRs (l : List Range) : String :=
-  showRanges l ++ " ; " ++ toString (RangeSet.totalLength l)
-
-def implVerdict (impl : Option (List String)) (want : String) : String :=
+def implVerdict (impl : Option (List String)) (want : String) (clause : String := "range_spec") : String :=
   match impl with
   | none => "-"
-  | some t => if " ".intercalate t == want then "ok" else "FAIL:range_spec"
+  | some t => if " ".intercalate t == want then "ok" else "FAIL:" ++ clause
 
-/-- independent interval-arithmetic specification of the range predicates on
-unit cells, evaluated on the implementation's answer -/
-def cells (r : Range) : List Nat := (List.range U).filter (cellIn r)
+/-- the implementation's list of ranges in an answer (or the model's when there is none) -/
+def implList (sc : Nat) (impl : Option (List String)) (dflt : List (Range α)) : List (Range α) :=
+  match impl with
+  | none => dflt
+  | some t => match parseObs (α := α) sc t with
+    | some o => o.l
+    | none => dflt
 
-def step (s : St) (op : List String) (impl : Option (List String)) : St × String × String :=
+def cells (sc : Nat) (r : Range α) : List Nat := (List.range U).filter (cellIn sc r)
+
+def step (s : St α) (op : List String) (impl : Option (List String)) : St α × String × String :=
+  let sc := s.scale
+  let rd : Int → α := fun n => Wire.ofScript n sc
   match op with
   | ["mr.add", k, a, b] =>
     match nat? k, int? a, int? b with
     | some k, some a, some b =>
-      let r := Range.make a b
+      let r := Range.make (rd a) (rd b)
       let m := MultiRange.addRange s.mr[k]! r
-      let sp := (s.spec[k]!).mapIdx (fun p v => v || cellIn r p)
-      ({ s with mr := s.mr.set! k m, spec := s.spec.set! k sp }, showMr m, mrVerdict impl sp)
+      let sp := (s.spec[k]!).mapIdx (fun p v => v || cellIn sc r p)
+      ({ s with mr := s.mr.set! k m, spec := s.spec.set! k sp, implMr := s.implMr.set! k (implList sc impl m) },
+        showColl sc m, mrVerdict (α := α) sc impl sp none (some (specAdd s.implMr[k]! r)))
     | _, _, _ => (s, "bad-op", "-")
   | ["mr.restrict", k, a, b] =>
     match nat? k, int? a, int? b with
     | some k, some a, some b =>
-      let r := Range.make a b
+      let r := Range.make (rd a) (rd b)
       let m := MultiRange.restrictTo s.mr[k]! r
-      let sp := (s.spec[k]!).mapIdx (fun p v => v && cellIn r p)
-      ({ s with mr := s.mr.set! k m, spec := s.spec.set! k sp }, showMr m, mrVerdict impl sp)
+      let sp := (s.spec[k]!).mapIdx (fun p v => v && cellIn sc r p)
+      ({ s with mr := s.mr.set! k m, spec := s.spec.set! k sp, implMr := s.implMr.set! k (implList sc impl m) },
+        showColl sc m, mrVerdict (α := α) sc impl sp none (some (specRestrict s.implMr[k]! r)))
     | _, _, _ => (s, "bad-op", "-")
   | ["mr.filter", k, a, b] =>
     match nat? k, int? a, int? b with
     | some k, some a, some b =>
-      let r := Range.make a b
+      let r := Range.make (rd a) (rd b)
       let m := MultiRange.filterWithin s.mr[k]! r
-      -- specification: a maximal run of cells survives iff it lies within r.
-      -- computed from the *model's previous state*, which the invariant theorem
-      -- shows is the list of maximal runs up to touching ranges
-      let sp := (s.spec[k]!).mapIdx (fun p v => v && (m.any (fun x => cellIn x p)))
-      ({ s with mr := s.mr.set! k m, spec := s.spec.set! k sp }, showMr m, mrVerdict impl sp)
+      -- `filter_spec`: the implementation must keep exactly those ranges of its own previous
+      -- answer that lie within r; the point set is that of the surviving components
+      let prev := s.implMr[k]!
+      let keep := prev.filter (fun x => decide (r.b ≤ x.b) && decide (x.e ≤ r.e))
+      let sp := (s.spec[k]!).mapIdx (fun p v => v && (keep.any (fun x => cellIn sc x p)))
+      ({ s with mr := s.mr.set! k m, spec := s.spec.set! k sp, implMr := s.implMr.set! k (implList sc impl m) },
+        showColl sc m, mrVerdict sc impl sp (some (prev, r)))
     | _, _, _ => (s, "bad-op", "-")
   | ["mr.clear", k] =>
     match nat? k with
     | some k =>
       let sp := Array.replicate U false
-      ({ s with mr := s.mr.set! k [], spec := s.spec.set! k sp }, showMr [], mrVerdict impl sp)
+      ({ s with mr := s.mr.set! k [], spec := s.spec.set! k sp, implMr := s.implMr.set! k [] },
+        showColl (α := α) sc [], mrVerdict (α := α) sc impl sp none)
     | _ => (s, "bad-op", "-")
   | ["mr.copy", k, j] | ["mr.assign", k, j] =>
     match nat? k, nat? j with
     | some k, some j =>
-      let m := s.mr[k]!
+      let isCopy := match op with | "mr.copy" :: _ => true | _ => false
+      let m := if isCopy then RangeCollection.copy s.mr[k]!
+               else RangeCollection.assign (k == j) s.mr[j]! s.mr[k]!
       let sp := s.spec[k]!
-      ({ s with mr := s.mr.set! j m, spec := s.spec.set! j sp }, showMr m, mrVerdict impl sp)
+      ({ s with mr := s.mr.set! j m, spec := s.spec.set! j sp, implMr := s.implMr.set! j (implList sc impl m) },
+        showColl sc m, mrVerdict (α := α) sc impl sp none)
     | _, _ => (s, "bad-op", "-")
   | ["mr.get", k] =>
     match nat? k with
-    | some k => (s, showMr s.mr[k]!, mrVerdict impl s.spec[k]!)
+    | some k => (s, showColl sc s.mr[k]!, mrVerdict (α := α) sc impl s.spec[k]! none)
     | _ => (s, "bad-op", "-")
+  | ["mr.at", k, i] | ["rs.at", k, i] =>
+    match nat? k, nat? i with
+    | some k, some i =>
+      let isMr := match op with | "mr.at" :: _ => true | _ => false
+      let l := if isMr then s.mr[k]! else s.rs[k]!
+      -- out of range is undefined behaviour: the harness does not call it and says `oob`
+      let out := match RangeCollection.getRange? l i with
+        | some x => showC sc [x.b, x.e]
+        | none => "oob"
+      (s, out, implVerdict impl out "getRange")
+    | _, _ => (s, "bad-op", "-")
   | ["rs.add", k, a, b] =>
     match nat? k, int? a, int? b with
     | some k, some a, some b =>
-      let r := Range.make a b
+      let r := Range.make (rd a) (rd b)
       let m := RangeSet.addRange s.rs[k]! r
-      let want := if a == b then s.rsSpec[k]! else s.rsSpec[k]! ++ [⟨min a b, max a b⟩]
-      ({ s with rs := s.rs.set! k m, rsSpec := s.rsSpec.set! k want }, showRs m, rsVerdict impl want)
+      let want := if a == b then s.rsSpec[k]! else s.rsSpec[k]! ++ [⟨min (rd a) (rd b), max (rd a) (rd b)⟩]
+      ({ s with rs := s.rs.set! k m, rsSpec := s.rsSpec.set! k want }, showColl sc m, rsVerdict sc impl want)
     | _, _, _ => (s, "bad-op", "-")
   | ["rs.restrict", k, a, b] =>
     match nat? k, int? a, int? b with
     | some k, some a, some b =>
-      let r := Range.make a b
+      let r := Range.make (rd a) (rd b)
       let m := RangeSet.restrictTo s.rs[k]! r
-      -- interval arithmetic: intersect each, keep the non-empty ones
+      -- interval arithmetic: intersect each, keep the non-empty ones (`rsSpecStep`)
       let want := (s.rsSpec[k]!).filterMap (fun x =>
         let lo := max x.b r.b; let hi := min x.e r.e
         if lo < hi then some ⟨lo, hi⟩ else none)
-      ({ s with rs := s.rs.set! k m, rsSpec := s.rsSpec.set! k want }, showRs m, rsVerdict impl want)
+      ({ s with rs := s.rs.set! k m, rsSpec := s.rsSpec.set! k want }, showColl sc m, rsVerdict sc impl want)
     | _, _, _ => (s, "bad-op", "-")
   | ["rs.filter", k, a, b] =>
     match nat? k, int? a, int? b with
     | some k, some a, some b =>
-      let r := Range.make a b
+      let r := Range.make (rd a) (rd b)
       let m := RangeSet.filterWithin s.rs[k]! r
       let want := (s.rsSpec[k]!).filter (fun x => decide (r.b ≤ x.b) && decide (x.e ≤ r.e))
-      ({ s with rs := s.rs.set! k m, rsSpec := s.rsSpec.set! k want }, showRs m, rsVerdict impl want)
+      ({ s with rs := s.rs.set! k m, rsSpec := s.rsSpec.set! k want }, showColl sc m, rsVerdict sc impl want)
     | _, _, _ => (s, "bad-op", "-")
   | ["rs.clear", k] =>
     match nat? k with
-    | some k => ({ s with rs := s.rs.set! k [], rsSpec := s.rsSpec.set! k [] }, showRs [], rsVerdict impl [])
+    | some k => ({ s with rs := s.rs.set! k [], rsSpec := s.rsSpec.set! k [] },
+        showColl (α := α) sc [], rsVerdict (α := α) sc impl [])
     | _ => (s, "bad-op", "-")
   | ["rs.copy", k, j] | ["rs.assign", k, j] =>
     match nat? k, nat? j with
     | some k, some j =>
-      let m := s.rs[k]!
+      let isCopy := match op with | "rs.copy" :: _ => true | _ => false
+      let m := if isCopy then RangeCollection.copy s.rs[k]!
+               else RangeCollection.assign (k == j) s.rs[j]! s.rs[k]!
       let w := s.rsSpec[k]!
-      ({ s with rs := s.rs.set! j m, rsSpec := s.rsSpec.set! j w }, showRs m, rsVerdict impl w)
+      ({ s with rs := s.rs.set! j m, rsSpec := s.rsSpec.set! j w }, showColl sc m, rsVerdict sc impl w)
     | _, _ => (s, "bad-op", "-")
   | ["rs.get", k] =>
     match nat? k with
-    | some k => (s, showRs s.rs[k]!, rsVerdict impl s.rsSpec[k]!)
+    | some k => (s, showColl sc s.rs[k]!, rsVerdict sc impl s.rsSpec[k]!)
     | _ => (s, "bad-op", "-")
   | ["r.pred", a, b, c, d] =>
     match int? a, int? b, int? c, int? d with
     | some a, some b, some c, some d =>
+      let a := rd a; let b := rd b; let c := rd c; let d := rd d
       let x := Range.make a b; let r := Range.make c d
-      let out := showInts [x.b, x.e] ++ " " ++ showBool (x.overlap r) ++ " " ++ showBool (x.isContiguous r)
-        ++ " " ++ showBool (x.contains r) ++ " " ++ showBool x.isEmpty ++ " " ++ toString x.length
-      -- interval arithmetic on cells (for non-empty operands), end points otherwise
-      let cx := cells x; let cr := cells r
+      let out := showC sc [x.b, x.e] ++ " " ++ showBool (x.overlap r) ++ " " ++ showBool (x.isContiguous r)
+        ++ " " ++ showBool (x.contains r) ++ " " ++ showBool x.isEmpty ++ " " ++ showC sc [x.length]
+        ++ " " ++ showBool (x.eq r) ++ " " ++ showBool (x.ne r) ++ " " ++ showBool (x.lt r) ++ " " ++ x.toString
+      -- interval arithmetic on cells (for non-empty operands), end points otherwise (`range_preds`)
+      let cx := cells sc x; let cr := cells sc r
       let ovl := if x.isEmpty || r.isEmpty then x.overlap r else cx.any (fun p => cr.contains p)
       let cont := if r.isEmpty then x.contains r else cr.all (fun p => cx.contains p)
       let contig := decide (max a b = min c d) || decide (max c d = min a b)
-      let want := showInts [min a b, max a b] ++ " " ++ showBool ovl ++ " " ++ showBool contig
+      let same := decide (min a b = min c d) && decide (max a b = max c d)
+      let less := decide (min a b < min c d) || decide (max a b < max c d)
+      let want := showC sc [min a b, max a b] ++ " " ++ showBool ovl ++ " " ++ showBool contig
         ++ " " ++ showBool cont ++ " " ++ showBool (decide (a = b)) ++ " " ++ toString ((cx.length : Nat) : Int)
+        ++ " " ++ showBool same ++ " " ++ showBool (!same) ++ " " ++ showBool less
+        ++ " [" ++ CoordIO.render (min a b) ++ "," ++ CoordIO.render (max a b) ++ "["
       (s, out, implVerdict impl want)
     | _, _, _, _ => (s, "bad-op", "-")
   | ["r.expand", a, b, c, d] =>
     match int? a, int? b, int? c, int? d with
     | some a, some b, some c, some d =>
-      let x := Range.make a b; let r := Range.make c d
+      let x := Range.make (rd a) (rd b); let r := Range.make (rd c) (rd d)
       let y := x.expandWith r
-      -- union of cells when the union is an interval, unchanged otherwise
+      -- union of cells when the union is an interval, unchanged otherwise (`expand_spec`)
       let lo := min x.b r.b; let hi := max x.e r.e
       let touching := decide (r.b ≤ x.e) && decide (x.b ≤ r.e)
-      let want := if touching then showInts [lo, hi] else showInts [x.b, x.e]
-      (s, showInts [y.b, y.e], implVerdict impl want)
+      let want := if touching then showC sc [lo, hi] else showC sc [x.b, x.e]
+      (s, showC sc [y.b, y.e], implVerdict impl want "expand_spec")
     | _, _, _, _ => (s, "bad-op", "-")
   | ["r.slice", a, b, c, d] =>
     match int? a, int? b, int? c, int? d with
     | some a, some b, some c, some d =>
-      let x := Range.make a b; let r := Range.make c d
+      let x := Range.make (rd a) (rd b); let r := Range.make (rd c) (rd d)
       let y := x.sliceWith r
       let lo := max x.b r.b; let hi := min x.e r.e
       -- the empty result is only required to be empty (the code normalises it to [0,0[ or a point)
@@ -214,23 +333,77 @@ def step (s : St) (op : List String) (impl : Option (List String)) : St × Strin
         | none => "-"
         | some t => match ints? t with
           | some [ib, ie] =>
+            let ib : α := rd ib; let ie : α := rd ie
             if lo < hi then (if ib == lo && ie == hi then "ok" else "FAIL:slice_spec")
             else (if ib == ie then "ok" else "FAIL:slice_spec")
           | _ => "FAIL:parse"
-      (s, showInts [y.b, y.e], verdict)
+      (s, showC sc [y.b, y.e], verdict)
     | _, _, _, _ => (s, "bad-op", "-")
   | ["r.shift", a, b, v] =>
     match int? a, int? b, int? v with
     | some a, some b, some v =>
-      let x := Range.make a b
+      let x := Range.make (rd a) (rd b); let v := rd v
       let y := x.shift v
       let z := y.unshift v
-      let out := showInts [y.b, y.e, y.length, z.b, z.e]
-      let want := showInts [min a b + v, max a b + v, max a b - min a b, min a b, max a b]
-      (s, out, implVerdict impl want)
+      let w := (x.unshift v).shift v
+      let out := showC sc [y.b, y.e, y.length, z.b, z.e, (x.unshift v).length, w.b, w.e,
+        z.b, z.e, (x.unshift v).length, w.b, w.e]
+      -- `shift_length`: the length is preserved and the shifts are inverse to each other, also
+      -- when an unsigned shift wraps around
+      let verdict := match impl with
+        | none => "-"
+        | some t => match ints? t with
+          | some [_, _, yl, zb, ze, ul, wb, we, pb, pe, ql, qb, qe] =>
+            if (rd yl : α) == x.length && (rd ul : α) == x.length && (rd zb : α) == x.b && (rd ze : α) == x.e
+                && (rd wb : α) == x.b && (rd we : α) == x.e && (rd pb : α) == x.b && (rd pe : α) == x.e
+                && (rd ql : α) == x.length && (rd qb : α) == x.b && (rd qe : α) == x.e then "ok"
+            else "FAIL:shift_length"
+          | _ => "FAIL:parse"
+      (s, out, verdict)
+    | _, _, _ => (s, "bad-op", "-")
+  | ["r.ctor", a] =>
+    match int? a with
+    | some a =>
+      let d : Range α := Range.default; let o := Range.make1 (rd a)
+      let out := showC sc [d.b, d.e, o.b, o.e] ++ " " ++ showBool d.isEmpty
+      let want := showC sc [0, 0, min (rd a) 0, max (rd a) 0] ++ " 1"
+      (s, out, implVerdict impl want "make_default")
+    | _ => (s, "bad-op", "-")
+  | ["r.copy", a, b, v] =>
+    match int? a, int? b, int? v with
+    | some a, some b, some v =>
+      -- clone(), copy constructor and operator= give equal, independent ranges: the clone is shifted
+      let x := Range.make (rd a) (rd b)
+      let c := (x.clone).shift (rd v)
+      let out := showC sc [x.b, x.e, c.b, c.e, x.clone.b, x.clone.e, x.clone.b, x.clone.e]
+      (s, out, implVerdict impl out "copy_deep")
     | _, _, _ => (s, "bad-op", "-")
   | _ => (s, "bad-op", "-")
 
-def machine : Machine St := { init := fun _ => {}, step := step }
+end
+
+/-- the state of whichever instantiation the `case` line selects -/
+inductive AnySt where
+  | i (s : St Int)
+  | u (s : St UInt32)
+  | q (s : St Rat)
+
+def init (t : List String) : AnySt :=
+  match t with
+  | _ :: "uint" :: _ => .u {}
+  | _ :: "double" :: sc :: _ =>
+    match nat? sc with
+    | some n => .q { scale := n }
+    | none => .q {}
+  | _ :: "double" :: _ => .q {}
+  | _ => .i {}
+
+def stepAny (s : AnySt) (op : List String) (impl : Option (List String)) : AnySt × String × String :=
+  match s with
+  | .i s => let (s', o, v) := step s op impl; (.i s', o, v)
+  | .u s => let (s', o, v) := step s op impl; (.u s', o, v)
+  | .q s => let (s', o, v) := step s op impl; (.q s', o, v)
+
+def machine : Machine AnySt := { init := init, step := stepAny }
 
 end Bpp.Drive.C20
